@@ -79,7 +79,24 @@ def judge(prop, consts, records, wd, name, shards=8, module="JudgeStruct", field
     return out
 
 
-def run_config(run: Run, prop, name, consts, wd, *, caching=False, simulate=None, depth=None, seed=None):
+def judge_mechanism(consts, records, wd, name):
+    """informational: does the real code enter its internal methods the way EGStructureImpl says?"""
+    recs = [{k: r[k] for k in ("id", "pre", "c", "res", "post", "entered")} for r in records if "entered" in r]
+    if not recs:
+        return 0, []
+    jc = {k: consts[k] for k in ("NV", "NU", "NL", "NLaw")}
+    jc.update({"Variant": "fixed", "ImplKinds": {"D"}, "ImplOps": {"new"}, "TraceMode": True})
+    text = tlc.make_cfg(jc, init="JInit", next_="JNext", invariants=["Conforms"])
+    path = os.path.join(wd, f"impl-{name}.json")
+    with open(path, "w") as f:
+        json.dump(recs, f)
+    r = tlc.run_tlc("JudgeImpl", text, wd, workers=8, tag=f"impl-{name}", env={"EG_RECORDS": path}, heap="4g", timeout=1800)
+    os.remove(path)
+    devs = [j for j in r["json"] if "id" in j]
+    return len(recs), devs
+
+
+def run_config(run: Run, prop, name, consts, wd, *, caching=False, simulate=None, depth=None, seed=None, impl=False):
     import time as _t
     t0 = _t.time()
     gen = generate(name, consts, wd, simulate=simulate, depth=depth, seed=seed)
@@ -90,7 +107,8 @@ def run_config(run: Run, prop, name, consts, wd, *, caching=False, simulate=None
     init = base_state(consts)
     if W.key(init) not in index:
         raise Machinery("executor's initial projection is not the model's initial state")
-    agg = {"skipped_pre": 0, "skipped_domain": 0, "bad": 0, "judge_s": 0.0, "nontrivial": set(), "chunks": 0, "sample": None}
+    agg = {"skipped_pre": 0, "skipped_domain": 0, "bad": 0, "judge_s": 0.0, "nontrivial": set(), "chunks": 0, "sample": None,
+           "mech_calls": 0, "mech_devs": []}
     confirmed_ref = {}
 
     def sink(records):
@@ -112,6 +130,10 @@ def run_config(run: Run, prop, name, consts, wd, *, caching=False, simulate=None
                            "caching": caching, "path": confirmed_ref["c"].get(W.key(r["pre"])), "call": r["c"],
                            "observed": {"pre": r["pre"], "res": r["res"], "post": r["post"]},
                            "fail": v["fail"], "expected": v.get("exp")})
+        if impl and agg["mech_calls"] < 40000:
+            n, devs = judge_mechanism(consts, records, wd, f"{name}-{agg['chunks']}")
+            agg["mech_calls"] += n
+            agg["mech_devs"].extend(devs[:5])
         for r in records:
             run.count_class(r["cls"])
             if r["pre"] != r["post"] or r["res"]["err"]:
@@ -124,8 +146,15 @@ def run_config(run: Run, prop, name, consts, wd, *, caching=False, simulate=None
             run.sample({"config": name, "caching": caching, "pre": r["pre"], "call": r["c"], "res": r["res"], "post": r["post"]})
 
     # explore shares its `confirmed` map through confirmed_ref, so the sink can attach replay paths
+    from . import impl_trace
     records, confirmed, st = explore.explore(consts, init, index, index, caching=caching, sink=sink,
-                                             confirmed_out=confirmed_ref)
+                                             confirmed_out=confirmed_ref,
+                                             impl=sorted(impl_trace.IMPL_OPS) if impl else None)
+    if impl:
+        run.extra.setdefault("mechanism_conformance", []).append(
+            {"config": name, "calls_examined": agg["mech_calls"], "deviations": len(agg["mech_devs"]),
+             "first_deviations": agg["mech_devs"][:3],
+             "note": "informational: internal call sequence of the real code vs spec/EGStructureImpl.tla (never an alarm)"})
     t2 = _t.time()
     st.update({"skipped_pre_not_invariant": agg["skipped_pre"], "skipped_out_of_domain": agg["skipped_domain"],
                "records_failing": agg["bad"], "t_generate_s": round(t1 - t0, 1),
